@@ -219,6 +219,8 @@ def render_rule(r):
       head += ' = %s' % rx(r.value)
   if r.distinct:
     head += ' distinct'
+  if getattr(r, 'denotation', None):
+    head += r.denotation
   if r.body is None:
     return head + ';'
   return head + ' :- ' + rp(r.body, top=True) + ';'
